@@ -3,6 +3,8 @@ open RV.C03
 #print axioms nt_lit_roundtrip
 #print axioms turtle_str_roundtrip
 #print axioms nt_line_roundtrip
+#print axioms map_writer_roundtrip
+#print axioms long_writer_roundtrip
 #print axioms shorthand_relex
 #print axioms num_text_roundtrip_partial
 #print axioms num_text_roundtrip_witness
